@@ -215,15 +215,20 @@ end init
 section apply
 variable {K : Type} [Add K] [Mul K] [Sub K] [Neg K] [Zero K] [One K] [DecidableEq K]
 
+/-- the first statement of `spmv`: `y = beta y + alpha Kpp x` with `Kpp` re-assembled from what the object keeps
+(`adjust_p == 1`: the adjusted matrix of the pressure solver plus `Ld`; `adjust_p == 2`: `Lm`; else the matrix of
+the pressure solver) -/
+def State.kppPart (S : State K) (α : K) (x : Vec K) (β : K) (y : Vec K) : Vec K :=
+  if S.prm.adjustP = 1 then
+    let y0 := Amgcl.spmv α S.KppP x β y
+    vmul α (S.Ld.getD #[]) x 1 y0
+  else if S.prm.adjustP = 2 then
+    Amgcl.spmv α (S.Lm.getD S.KppP) x β y
+  else Amgcl.spmv α S.KppP x β y
+
 /-- `spmv(alpha, x, beta, y)`: `y = beta y + alpha S x` with the matrix-free `S = Kpp - Kpu Kuu^-1 Kup` -/
 def State.spmv (S : State K) (U : Vec K → Vec K) (α : K) (x : Vec K) (β : K) (y : Vec K) : Vec K :=
-  let y1 :=
-    if S.prm.adjustP = 1 then
-      let y0 := Amgcl.spmv α S.KppP x β y
-      vmul α (S.Ld.getD #[]) x 1 y0
-    else if S.prm.adjustP = 2 then
-      Amgcl.spmv α (S.Lm.getD S.KppP) x β y
-    else Amgcl.spmv α S.KppP x β y
+  let y1 := S.kppPart α x β y
   let tmp := Amgcl.spmv 1 S.Kup x 0 (vclear S.nu)
   let u := if S.prm.approxSchur then vmul 1 (S.M.getD #[]) tmp 0 (vclear S.nu) else U tmp
   Amgcl.spmv (-α) S.Kpu u 1 y1
